@@ -214,17 +214,28 @@ def region_rules(prog, rep):
                 f = ci.methods.get("reduce")
                 if f is None or ci.name == "ffunc":
                     continue
-                I = Interp(prog, hints.param_types_for(mod), hints.FIELD_TYPES, inline=False)
+                # helpers of the module (a shared `difference, then trim` function, reduce tails on the base class) are inlined
+                I = Interp(prog, hints.param_types_for(mod), hints.FIELD_TYPES, max_depth=4,
+                           no_inline={"ffunc.adjust_zeros", "ccube._compute_common_cells_from_marginal_diffs", "as_separate_validity"})
                 fr = I.run(f)
                 cube = tm.param("cube")
                 # every returned array derives from R[cube.marginless]
-                okr = True
+                okr, raw = True, False
                 for v, g in fr.returns:
                     for comp in (v.args if v.op == "tuple" else (v,)):
                         if not tm.contains(comp, lambda x: x.op == "sub" and x.args[1] == T("attr", cube, "marginless")):
                             okr = False
+                            # a region handed back as it is (or through arithmetic only) is certainly untrimmed
+                            if tm.contains(comp, lambda x: x.op == "unpack" and x.args[0] == tm.param("regions")) and not tm.contains(comp, lambda x: x.op == "call" and not (tm.callee_name(x) or "").startswith(("numpy.", "."))):
+                                raw = True
                 n += 1
-                rep.check(okr, "R-C13-a", f.fq, "returned arrays are trimmed with cube.marginless (extra axes kept whole, margins cut per dimension)", "", "a result is not trimmed by marginless")
+                cons = "returned arrays are trimmed with cube.marginless (extra axes kept whole, margins cut per dimension)"
+                if okr:
+                    rep.proved("R-C13-a", f.fq, cons, "")
+                elif raw:
+                    rep.violated("R-C13-a", f.fq, cons, "a region is returned without the [cube.marginless] trim: the margin cells of every dimension stay in the result", witness={"inputs": "any cube: the result has one extra cell per dimension"})
+                else:
+                    rep.undecided("R-C13-a", f.fq, cons, "a returned value does not visibly derive from <region>[cube.marginless]")
     rep.floor("R-C13-a", 20, n + 7)
 
 
@@ -234,6 +245,12 @@ def slices_rules(prog, rep):
     I.run(fi)
     self_t = tm.param("self")
     where = fi.fq
+    # the sub-rules below read the RECURSIVE generator (bucket by last coordinate, recurse on shape[:-1] with the coordinate
+    # prepended, yield (coords, self) at the bottom); any other algorithm (an explicit stack, itertools) is not decided here
+    if not [e for e in I.events if e.kind == "call" and e["method"] == "slices1d" and not e.stack]:
+        rep.undecided("R-C13-b", where, "slices1d peels the last axis and labels every 1-D slice with its coordinates in axis order", "slices1d is not the recursive generator this rule reads (no recursive call)")
+        _product_rule(prog, rep)
+        return
     # (1) buckets by the LAST coordinate, one per position of the last axis
     st = [e for e in I.events if e.kind == "store_sub" and not e.stack]
     ok1 = False
@@ -270,6 +287,10 @@ def slices_rules(prog, rep):
     ys = [e for e in I.events if e.kind == "yield" and not e.stack and not e.loops]
     ok5 = any(e["value"].op == "tuple" and len(e["value"].args) == 2 and e["value"].args[0] == tm.param("base_coords") and e["value"].args[1] == self_t for e in ys)
     rep.check(ok5, "R-C13-b", where, "the base case yields (accumulated coordinates, the 1-D index)", "", "base case changed")
+    _product_rule(prog, rep)
+
+
+def _product_rule(prog, rep):
     # xcube.product
     fp = prog.func("xcubes", "xcube.product")
     Ip = Interp(prog, hints.param_types_for("xcubes"), hints.FIELD_TYPES)
@@ -331,8 +352,29 @@ def task_rules(prog, rep):
                     l2 = src.args[2][0]
                     if I.loopinfo[l2]["iter"] == taskarg and src.args[1] == T("sub", T("iter", taskarg, l2), tm.const("coords")):
                         okp = True
-        rep.check(okc and okp, "R-C13-c", fi.fq, "ccube task: data slices and coordinates are the 'data' and 'coords' of the same product element, in the same order", "",
-                  "data and coordinates of a task are taken from different places/orders", witness={"inputs": "two multi-column dimensions with different column counts"})
+        if not okp:
+            # the same recogniser C16 uses for the block coordinates (comprehension, itertools.chain forms), with the extra
+            # demand that the projection is ["coords"]
+            for e in tup:
+                a = e["args"][0] if e["args"] else None
+                if a is None:
+                    continue
+                import c16
+
+                ok, _why = c16._is_concat_of_taskarg(a, taskarg, I)
+                if ok and tm.contains(a, lambda x: x.op == "sub" and tm.is_const(x.args[1], "coords") and x.args[0].op == "iter" and x.args[0].args[0] == taskarg):
+                    okp = True
+        cons_c = "ccube task: data slices and coordinates are the 'data' and 'coords' of the same product element, in the same order"
+        if okc and okp:
+            rep.proved("R-C13-c", fi.fq, cons_c, "")
+        else:
+            # block coordinates that are computed from the task argument alone, in a form not read here (itertools.chain, a
+            # helper): not decided; coordinates that come from anywhere else are a violation
+            from_task = [e for e in tup if e["args"] and tasks.leaves(e["args"][0], I, stop=(taskarg,)) == {taskarg} and tm.contains(e["args"][0], lambda x: tm.is_const(x, "coords") or x == taskarg)]
+            if okc and from_task:
+                rep.undecided("R-C13-c", fi.fq, cons_c, "the block coordinates derive from the task argument only, but not through the comprehension this rule reads: %s" % tm.show(from_task[0]["args"][0])[:70])
+            else:
+                rep.violated("R-C13-c", fi.fq, cons_c, "data and coordinates of a task are taken from different places/orders", witness={"inputs": "two multi-column dimensions with different column counts"})
         # R-C13-e: the block index is tuple(<ints only>)
         idx = block_indices(tev)
         oke = bool(idx) and all(not tm.contains(x.args[1], lambda y: y.op == "slice" or (y.op == "call" and tm.callee_name(y) == "builtins.slice")) for x in idx)
